@@ -40,6 +40,41 @@ pub proof fn lemma_astore_insert(st: IMap<Seq<char>, Constant>, k: Seq<char>, c:
     assert(astore(st.insert(k, c)) =~= astore(st).insert(k, (c.bits as nat, c.value@)));
 }
 
+/// every scalar of e that has a value in the abstract store has a value of the scalar's declared width
+/// (`typed_in` of units/C07/state_expr.rs, on the abstract store)
+pub open spec fn atyped_in(a: AStore, e: Expression) -> bool
+    decreases e,
+{
+    match e {
+        Expression::Scalar(s) => a.contains_key(s.name@) ==> a[s.name@].0 == s.bits as nat,
+        Expression::Constant(c) => true,
+        Expression::Add(l, r) | Expression::Sub(l, r) | Expression::Mul(l, r) | Expression::Divu(l, r)
+        | Expression::Modu(l, r) | Expression::Divs(l, r) | Expression::Mods(l, r) | Expression::And(l, r)
+        | Expression::Or(l, r) | Expression::Xor(l, r) | Expression::Shl(l, r) | Expression::Shr(l, r)
+        | Expression::AShr(l, r) | Expression::Cmpeq(l, r) | Expression::Cmpneq(l, r) | Expression::Cmplts(l, r)
+        | Expression::Cmpltu(l, r) => atyped_in(a, *l) && atyped_in(a, *r),
+        Expression::Zext(b, x) | Expression::Sext(b, x) | Expression::Trun(b, x) => atyped_in(a, *x),
+        Expression::Ite(c, t, f) => atyped_in(a, *c) && atyped_in(a, *t) && atyped_in(a, *f),
+    }
+}
+
+pub proof fn lemma_atyped(st: IMap<Seq<char>, Constant>, e: Expression)
+    ensures typed_in(st, e) == atyped_in(astore(st), e),
+    decreases e,
+{
+    match e {
+        Expression::Scalar(s) => {}
+        Expression::Constant(c) => {}
+        Expression::Add(l, r) | Expression::Sub(l, r) | Expression::Mul(l, r) | Expression::Divu(l, r)
+        | Expression::Modu(l, r) | Expression::Divs(l, r) | Expression::Mods(l, r) | Expression::And(l, r)
+        | Expression::Or(l, r) | Expression::Xor(l, r) | Expression::Shl(l, r) | Expression::Shr(l, r)
+        | Expression::AShr(l, r) | Expression::Cmpeq(l, r) | Expression::Cmpneq(l, r) | Expression::Cmplts(l, r)
+        | Expression::Cmpltu(l, r) => { lemma_atyped(st, *l); lemma_atyped(st, *r); }
+        Expression::Zext(b, x) | Expression::Sext(b, x) | Expression::Trun(b, x) => { lemma_atyped(st, *x); }
+        Expression::Ite(c, t, f) => { lemma_atyped(st, *c); lemma_atyped(st, *t); lemma_atyped(st, *f); }
+    }
+}
+
 // ---- op_spec: what one operation does to sigma (from the property statement) --------------------------
 
 /// where control goes after an operation
@@ -176,6 +211,30 @@ pub open spec fn op_typed(st: IMap<Seq<char>, Constant>, op: Operation) -> bool 
         Operation::Branch { target } => typed_in(st, target),
         Operation::Intrinsic { intrinsic } => true,
         Operation::Nop { placeholder } => true,
+    }
+}
+
+pub open spec fn op_atyped(a: AStore, op: Operation) -> bool {
+    match op {
+        Operation::Assign { dst, src } => atyped_in(a, src),
+        Operation::Store { index, src } => atyped_in(a, index) && atyped_in(a, src),
+        Operation::Load { dst, index } => atyped_in(a, index),
+        Operation::Branch { target } => atyped_in(a, target),
+        Operation::Intrinsic { intrinsic } => true,
+        Operation::Nop { placeholder } => true,
+    }
+}
+
+pub proof fn lemma_op_atyped(st: IMap<Seq<char>, Constant>, op: Operation)
+    ensures op_typed(st, op) == op_atyped(astore(st), op),
+{
+    match op {
+        Operation::Assign { dst, src } => { lemma_atyped(st, src); }
+        Operation::Store { index, src } => { lemma_atyped(st, index); lemma_atyped(st, src); }
+        Operation::Load { dst, index } => { lemma_atyped(st, index); }
+        Operation::Branch { target } => { lemma_atyped(st, target); }
+        Operation::Intrinsic { intrinsic } => {}
+        Operation::Nop { placeholder } => {}
     }
 }
 
